@@ -227,6 +227,11 @@ def rc_jobs(harness, mode, procs, n, size=100, variant='asan', extra=()):
     return [dict(harness=harness, variant=variant, mode=mode, n=n, size=size, sub=i, args=list(extra)) for i in range(procs)]
 
 
+def fuzz_jobs(harness, prop, procs, seconds, runs=0):
+    return [dict(harness=harness, variant='fuzz', mode='fuzz', fuzz=True, fuzz_prop=prop, seconds=seconds, runs=runs, sub=i,
+                 timeout=seconds + 300) for i in range(procs)]
+
+
 def with_timeout(jobs, t):
     for j in jobs:
         j['timeout'] = t
@@ -254,15 +259,15 @@ def plan(pid, tier):
     P['C07'] = lambda: (rc_jobs('h_format', 'c07', 12, 1500 if q else 40000) + sweep_jobs('h_format', 'c07_sweep', 4))
     P['C08'] = lambda: (rc_jobs('h_format', 'c08', 10, 1500 if q else 40000) + sweep_jobs('h_format', 'c08_sweep', 6))
     P['C06'] = lambda: (rc_jobs('h_needed', 'c06', 8, 3000 if q else 80000) + sweep_jobs('h_needed', 'c06_xor_sweep', 4) + sweep_jobs('h_needed', 'c06_rs_sweep', 4 if q else 12))
-    P['C09'] = lambda: (rc_jobs('h_header', 'c09', 12, 2500 if q else 60000) + sweep_jobs('h_header', 'c09_sweep', 4))
+    P['C09'] = lambda: (rc_jobs('h_header', 'c09', 12, 2500 if q else 60000) + sweep_jobs('h_header', 'c09_sweep', 4) + ([] if q else fuzz_jobs('fuzz_header', 'C09', 8, 240)))
     P['C10'] = lambda: (rc_jobs('h_header', 'c10', 10, 2500 if q else 60000) + sweep_jobs('h_header', 'c10_sweep', 2) + rc_jobs('h_header', 'c10_alt', 2, 5000 if q else 100000))
-    P['C11'] = lambda: rc_jobs('h_header', 'c11', 16, 2500 if q else 60000)
-    P['C12'] = lambda: rc_jobs('h_header', 'c12', 16, 2500 if q else 60000)
+    P['C11'] = lambda: rc_jobs('h_header', 'c11', 16, 2500 if q else 60000) + ([] if q else fuzz_jobs('fuzz_header', 'C11', 4, 180))
+    P['C12'] = lambda: rc_jobs('h_header', 'c12', 16, 2500 if q else 60000) + ([] if q else fuzz_jobs('fuzz_header', 'C12', 6, 240))
     P['C13'] = lambda: (sweep_jobs('h_args', 'c13_grid', 4) + rc_jobs('h_args', 'c13_grid_rc', 2, 1500 if q else 30000)
                         + sweep_jobs('h_args', 'c13_box', 6 if q else 16) + rc_jobs('h_args', 'c13_box_rc', 4, 3000 if q else 60000))
-    P['C14'] = lambda: (rc_jobs('h_state', 'c14', 8, 400 if q else 6000) + sweep_jobs('h_state', 'c14_exhaustive', 8))
+    P['C14'] = lambda: (rc_jobs('h_state', 'c14', 8, 400 if q else 6000) + sweep_jobs('h_state', 'c14_exhaustive', 8) + ([] if q else fuzz_jobs('fuzz_api', 'C14', 6, 240)))
     P['C15'] = lambda: rc_jobs('h_state', 'c15', 16, 2500 if q else 40000)
-    P['C16'] = lambda: (rc_jobs('h_state', 'c16', 14, 1200 if q else 20000) + sweep_jobs('h_state', 'c16_pairs', 2))
+    P['C16'] = lambda: (rc_jobs('h_state', 'c16', 14, 1200 if q else 20000) + sweep_jobs('h_state', 'c16_pairs', 2) + ([] if q else fuzz_jobs('fuzz_api', 'C16', 8, 300)))
     P['C17'] = lambda: (sweep_jobs('h_fault', 'c17_single', 6) + rc_jobs('h_fault', 'c17', 10, 400 if q else 6000))
     P['C19'] = lambda: (rc_jobs('h_codec', 'c19', 6, 1500 if q else 30000) + sweep_jobs('h_codec', 'c19_sweep', 6 if q else 12) + rc_jobs('h_codec', 'c19_inv', 3, 800 if q else 10000) + sweep_jobs('h_codec', 'c19_singular', 3 if q else 8)
                         + sweep_jobs('h_needed', 'c06_rs_sweep', 2 if q else 8, extra=['--only_isa', '1']))
@@ -312,6 +317,8 @@ def run_job(job, vdirs, seed, tier, rundir, pid, exclude):
     sub = job.get('sub', 0)
     label = '%s-%s-%s-%d' % (job['harness'], job['mode'], job['variant'], sub)
     out = os.path.join(rundir, label + '.json')
+    if job.get('fuzz'):
+        return run_fuzz_job(job, vdir, exe, seed, rundir, pid, label)
     argv = [exe, '--prop', pid, '--mode', job['mode'], '--tier', tier, '--out', out, '--seed', str(seed * 1000 + sub + 1)]
     if 'n' in job:
         argv += ['--n', str(job['n']), '--size', str(job.get('size', 100))]
@@ -330,6 +337,54 @@ def run_job(job, vdirs, seed, tier, rundir, pid, exclude):
     except subprocess.TimeoutExpired as e:
         rc, stdout, timed_out = -1, (e.stdout or b'').decode() if isinstance(e.stdout, bytes) else (e.stdout or ''), True
     log.close()
+    return dict(job=job, label=label, rc=rc, stdout=stdout, out=out, wall=time.time() - t0, timed_out=timed_out, argv=argv)
+
+
+def run_fuzz_job(job, vdir, exe, seed, rundir, pid, label):
+    """one libFuzzer process: fresh corpus seeded from corpus/<target>/, bounded by -max_total_time (and -runs);
+    only crash-/leak- artefacts and FAIL lines count, slow-unit/timeout/oom are load noise"""
+    sub = job.get('sub', 0)
+    corpus = os.path.join(rundir, label + '-corpus')
+    os.makedirs(corpus, exist_ok=True)
+    seeds = os.path.join(VERIF, 'corpus', job['harness'])
+    argv = [exe, '-seed=%d' % (seed * 1000 + sub + 1), '-max_total_time=%d' % job['seconds'], '-print_final_stats=1', '-max_len=512',
+            '-timeout=60', '-rss_limit_mb=4096', '-artifact_prefix=' + os.path.join(rundir, label + '-'), corpus]
+    if job.get('runs'):
+        argv.insert(1, '-runs=%d' % job['runs'])
+    if os.path.isdir(seeds):
+        argv.append(seeds)
+    env = run_env(vdir)
+    env['VERIF_FUZZ_PROP'] = job['fuzz_prop']
+    env['ASAN_OPTIONS'] += ':handle_segv=1'
+    t0 = time.time()
+    logp = os.path.join(rundir, label + '.log')
+    timed_out = False
+    with open(logp, 'w') as log:
+        try:
+            r = subprocess.run(argv, stdout=subprocess.PIPE, stderr=log, text=True, env=env, cwd=VERIF, timeout=job['timeout'])
+            rc, stdout = r.returncode, r.stdout
+        except subprocess.TimeoutExpired as e:
+            rc, stdout, timed_out = -1, '', True
+    execs = 0
+    for line in open(logp, errors='replace'):
+        m = re.match(r'stat::number_of_executed_units:\s+(\d+)', line)
+        if m:
+            execs = int(m.group(1))
+    arts = [a for a in glob.glob(os.path.join(rundir, label + '-*')) if re.search(r'-(crash|leak)-[0-9a-f]+$', a)]
+    st = dict(prop=pid, mode='fuzz:' + job['harness'], evaluations=execs, nontrivial=0, skipped=0, failures=0, shrink_evals=0, exhaustive=False,
+              hist={'fuzz_executions': execs}, extra={}, samples=[], fail_files=[], notes=[])
+    if arts and 'FAIL property=' not in stdout:
+        st['notes'].append('%s: libFuzzer artefact without an oracle failure (memory error): %s' % (label, ', '.join(os.path.basename(a) for a in arts)))
+    out = os.path.join(rundir, label + '.json')
+    json.dump(st, open(out, 'w'))
+    # an artefact without FAIL line = sanitizer crash inside the target: not replayable through the text
+    # harness, report it as abnormal so the run is not silently green
+    if arts and 'FAIL property=' not in stdout:
+        rc = 98
+    elif rc not in (0, 1) and 'FAIL property=' in stdout:
+        rc = 1
+    elif not arts and not timed_out:
+        rc = 0
     return dict(job=job, label=label, rc=rc, stdout=stdout, out=out, wall=time.time() - t0, timed_out=timed_out, argv=argv)
 
 
